@@ -155,6 +155,8 @@ type cmdEnv struct {
 	out      []outSeg
 	pending  []outSeg
 	noTrunc  bool
+	inPlace  bool // the input file is the output file
+	trunc    bool // ... and has been truncated by os.Create already
 	flushed  bool
 	closed   bool
 }
